@@ -26,7 +26,7 @@ func init() {
 			"(e) aggregators[i] is computed from the i-th signature and i-th committee size with the TARGET_AGGREGATORS_PER_COMMITTEE divisor clamped to >= 1. " +
 			"(f) a validator's info is left out of the per-committee record only when an aggregator is already recorded for that slot and committee, and a recorded aggregator is never replaced; " +
 			"(g) the controller's stored subscription info is replaced only by the result of a successful Subscribe and deleted only for an epoch before the chain's present one. " +
-			"Added with the third seeding round: (i) the subscription info returned to the controller is calculated from all merged duties of the response and the accounts passed in; (d, extended) every branch deciding whether an attestation's aggregation job is reached is a presence flag, nil/error test, emptiness test, IsAggregator, or slot < current slot. Added with the fourth seeding round: (k) fields named after chain constants are filled from them. Added with the fifth seeding round: (x) the cross-cutting rules inside the subscriber packages. Added with the sixth seeding round and the false-alarm regression: (y) C03.o and C03.f are taken over (contexts handed to the scheduler outlive the handler; a changed current dependent root refreshes the next epoch's attester duties); (e) accepts the one-shot hash and max() clamp. NOT decided: the selection arithmetic against the specification (hash mod n), timing.",
+			"Added with the third seeding round: (i) the subscription info returned to the controller is calculated from all merged duties of the response and the accounts passed in; (d, extended) every branch deciding whether an attestation's aggregation job is reached is a presence flag, nil/error test, emptiness test, IsAggregator, or slot < current slot. Added with the fourth seeding round: (k) fields named after chain constants are filled from them. Added with the fifth seeding round: (x) the cross-cutting rules inside the subscriber packages. Added with the sixth seeding round and the false-alarm regression: (y) C03.o and C03.f are taken over (contexts handed to the scheduler outlive the handler; a changed current dependent root refreshes the next epoch's attester duties); (e) accepts the one-shot hash and max() clamp. Added with the eighth seeding round: (m) a return of attester.Attest that carries attestations carries a nil error (the controller schedules no aggregation after an error); (y) C06.k is taken over. NOT decided: the selection arithmetic against the specification (hash mod n), timing.",
 		Technique: "AST loop-exit analysis, SSA guard/edge-deletion queries, provenance of composite-literal fields and call arguments, index-space analysis of per-validator arrays",
 		Rule:      "one obligation per loop (a,d), per literal field (b,d), per indexed access (c), per store (e); non-trivial = the anchor construct exists and was analysed",
 	})
@@ -162,7 +162,7 @@ func runC14(p *core.Prog, r *core.Report, tier string) {
 			}
 			carries := false
 			for _, lf := range core.PhiLeaves(core.Unspill(ret.Results[0]), ret) {
-				if !core.IsNilConst(lf.V) {
+				if !core.IsNilConst(lf.V) && !alwaysNilResult(lf.V) {
 					carries = true
 				}
 			}
@@ -1016,4 +1016,38 @@ func constFlagDecidersAny(ifi *ssa.If) []*ssa.If {
 		out = []*ssa.If{}
 	}
 	return out
+}
+
+// alwaysNilResult: v is result i of a call of a local function literal (or a function of the package) every return of
+// which has nil for that result — `return failed(err)` with `failed := func(err error) ([]T, error) { …; return nil, err }`.
+func alwaysNilResult(v ssa.Value) bool {
+	ex, ok := v.(*ssa.Extract)
+	if !ok {
+		return false
+	}
+	call, ok := ex.Tuple.(*ssa.Call)
+	if !ok {
+		return false
+	}
+	callee := call.Call.StaticCallee()
+	if callee == nil {
+		callee = localClosureOf(call.Call.Value)
+	}
+	if callee == nil || len(callee.Blocks) == 0 {
+		return false
+	}
+	for _, ret := range core.ReturnsOf(callee) {
+		if ret.Block() == callee.Recover {
+			continue
+		}
+		if ex.Index >= len(ret.Results) {
+			return false
+		}
+		for _, lf := range core.PhiLeaves(core.Unspill(ret.Results[ex.Index]), ret) {
+			if !core.IsNilConst(lf.V) {
+				return false
+			}
+		}
+	}
+	return true
 }
